@@ -116,18 +116,29 @@ Authentic(r, ctx) ==
         SValid(r.servers[i].sig, IF r.mig.present THEN r.mig.newgca ELSE ctx.gca)
 
 -----------------------------------------------------------------------------
-(* The sync round (threadedSyncWithServer).  State of the identity part:    *)
+(* The sync rounds (threadedSyncWithServer).  The report loop launches a     *)
+(* round in its own goroutine every 60 iterations, or 4 iterations after a   *)
+(* failed one: a round that is waiting for a slow server overlaps with the   *)
+(* next one.  Rounds share the identity state under c.mu; what a round keeps *)
+(* in local variables between its critical sections is its record in rnd.    *)
+(* State of the identity part:                                               *)
 (*   cgca, cid          current GCA key and short id                        *)
 (*   csrv               server key -> [banned, loc, ports]                  *)
 (*   primary            the server reports are sent to                      *)
 (*   cdisk              [gca, id, srv] what the three files hold            *)
 (*   mutex              "free" | "held"  (c.mu)                             *)
-(*   rnd                [phase, failed, attempts, gca]: the round in        *)
-(*                      progress; gca is the GCA key read at its beginning  *)
+(*   rnd                round id -> [phase, failed, attempts, gca, cur,     *)
+(*                      skip]: gca is the GCA key read at the round's       *)
+(*                      beginning, cur the server it picked last, skip the  *)
+(*                      servers known as banned at its beginning (only used *)
+(*                      by the deviation "frozenbans")                      *)
 VARIABLES cgca, cid, csrv, primary, cdisk, mutex, rnd
 svars == <<cgca, cid, csrv, primary, cdisk, mutex, rnd>>
 
-Idle == [phase |-> "idle", failed |-> {}, attempts |-> 0, gca |-> "none"]
+RoundIds == {"r1", "r2"}
+IdleR == [phase |-> "idle", failed |-> {}, attempts |-> 0, gca |-> "none", cur |-> "zero", skip |-> {}]
+Idle == [x \in RoundIds |-> IdleR]
+AllIdle == \A x \in RoundIds : rnd[x].phase = "idle"
 Entry(s) == [banned |-> s.banned, loc |-> s.loc, ports |-> s.ports]
 
 (* merge rule: an entry is added if new, replaced only to become banned *)
@@ -139,41 +150,47 @@ FoldServers(m, list) ==
                    THEN [x \in DOMAIN m \cup {s.key} |-> IF x = s.key THEN Entry(s) ELSE m[x]]
                    ELSE m, Tail(list))
 
-Candidates == {k \in DOMAIN csrv : ~csrv[k].banned /\ k \notin rnd.failed}
+BannedNow == {k \in DOMAIN csrv : csrv[k].banned}
+(* the ban flag is read from the live list in every attempt; the deviation  *)
+(* "frozenbans" reads it once, at the beginning of the round                *)
+Candidates(x) == {k \in DOMAIN csrv : k \notin rnd[x].failed /\
+                     IF "frozenbans" \in CDefects THEN k \notin rnd[x].skip ELSE ~csrv[k].banned}
 
-RoundBegin ==     \* first critical section: read primary and GCA key
-  /\ rnd.phase = "idle" /\ mutex = "free"
-  /\ rnd' = [phase |-> "picking", failed |-> {}, attempts |-> 0, gca |-> cgca]
+RoundBegin(x) ==     \* first critical section: read primary and GCA key
+  /\ rnd[x].phase = "idle" /\ mutex = "free"
+  /\ rnd' = [rnd EXCEPT ![x] = [phase |-> "picking", failed |-> {}, attempts |-> 0, gca |-> cgca, cur |-> "zero",
+                                skip |-> BannedNow]]
   /\ UNCHANGED <<cgca, cid, csrv, primary, cdisk, mutex>>
 
 (* one attempt: under c.mu pick a random server that is neither banned nor  *)
 (* failed in this round; the previous pick, if any, has failed              *)
-Pick(k) ==
-  /\ rnd.phase = "picking" /\ rnd.attempts < 5 /\ mutex = "free"
-  /\ k \in Candidates
+Pick(x, k) ==
+  /\ rnd[x].phase = "picking" /\ rnd[x].attempts < 5 /\ mutex = "free"
+  /\ k \in Candidates(x)
   /\ primary' = k
-  /\ rnd' = [rnd EXCEPT !.attempts = @ + 1]
+  /\ rnd' = [rnd EXCEPT ![x].attempts = @ + 1, ![x].cur = k]
   /\ UNCHANGED <<cgca, cid, csrv, cdisk, mutex>>
 
-AttemptFailed ==
-  /\ rnd.phase = "picking" /\ rnd.attempts > 0
-  /\ rnd' = [rnd EXCEPT !.failed = @ \cup {primary}]
+AttemptFailed(x) ==
+  /\ rnd[x].phase = "picking" /\ rnd[x].attempts > 0
+  /\ rnd' = [rnd EXCEPT ![x].failed = @ \cup {rnd[x].cur}]
   /\ UNCHANGED <<cgca, cid, csrv, primary, cdisk, mutex>>
 
 (* giving up: five attempts failed, or no candidate is left.  The second    *)
 (* path returned with c.mu held before the repair (deviation "lockleak").   *)
-GiveUp ==
-  /\ rnd.phase = "picking"
-  /\ (rnd.attempts >= 5 \/ Candidates = {})
-  /\ rnd' = Idle
-  /\ mutex' = IF Candidates = {} /\ rnd.attempts < 5 /\ "lockleak" \in CDefects THEN "held" ELSE mutex
+GiveUp(x) ==
+  /\ rnd[x].phase = "picking"
+  /\ (rnd[x].attempts >= 5 \/ (Candidates(x) = {} /\ mutex = "free"))
+  /\ rnd' = [rnd EXCEPT ![x] = IdleR]
+  /\ mutex' = IF Candidates(x) = {} /\ rnd[x].attempts < 5 /\ "lockleak" \in CDefects THEN "held" ELSE mutex
   /\ UNCHANGED <<cgca, cid, csrv, primary, cdisk>>
 
-(* a reply that passed every check is applied under c.mu: migration or merge,*)
-(* files first, then memory                                                 *)
-ApplyReply(r) ==
-  /\ rnd.phase = "picking" /\ rnd.attempts > 0 /\ mutex = "free"
-  /\ ParseOutcome(r, [server |-> primary, gca |-> rnd.gca, dev |-> r.key]) = "ok"
+(* a reply that passed every check (against the server this round contacted *)
+(* and the GCA key it read at its beginning) is applied under c.mu:         *)
+(* migration or merge, files first, then memory                             *)
+ApplyReply(x, r) ==
+  /\ rnd[x].phase = "picking" /\ rnd[x].attempts > 0 /\ mutex = "free"
+  /\ ParseOutcome(r, [server |-> rnd[x].cur, gca |-> rnd[x].gca, dev |-> r.key]) = "ok"
   /\ IF r.mig.present /\ r.mig.newgca # cgca
      THEN LET m == FoldServers(<<>>, r.servers) IN
           /\ cgca' = r.mig.newgca /\ cid' = r.mig.newid /\ csrv' = m
@@ -181,11 +198,11 @@ ApplyReply(r) ==
      ELSE LET m == FoldServers(csrv, r.servers) IN
           /\ csrv' = m /\ cdisk' = [cdisk EXCEPT !.srv = m]
           /\ UNCHANGED <<cgca, cid>>
-  /\ rnd' = Idle
+  /\ rnd' = [rnd EXCEPT ![x] = IdleR]
   /\ UNCHANGED <<primary, mutex>>
 
 (* restart: identity and list come back from the files; some non-banned     *)
-(* server becomes primary                                                   *)
+(* server becomes primary (Close waits for the rounds in flight)            *)
 ClientReload(k) ==
   /\ cgca' = cdisk.gca /\ cid' = cdisk.id /\ csrv' = cdisk.srv
   /\ (k \in DOMAIN cdisk.srv /\ ~cdisk.srv[k].banned) \/
@@ -194,9 +211,11 @@ ClientReload(k) ==
   /\ UNCHANGED cdisk
 
 (* C11 / C17 *)
-LockFreeWhenIdle == rnd.phase = "idle" => mutex = "free"
-PrimaryNotBannedAtPick == rnd.phase = "picking" /\ rnd.attempts > 0 /\ primary \notin rnd.failed
-                            => primary \in DOMAIN csrv
+LockFreeWhenIdle == AllIdle => mutex = "free"
+(* a pick never selects a server the client knows, at that moment, as banned *)
+NeverSelectBannedStep ==
+  \A x \in RoundIds : rnd'[x].attempts > rnd[x].attempts =>
+     rnd'[x].cur \in DOMAIN csrv /\ ~csrv[rnd'[x].cur].banned
 PersistEqualsAdopted == cdisk = [gca |-> cgca, id |-> cid, srv |-> csrv]
 BannedMonotoneStep ==
   \A k \in DOMAIN csrv : csrv[k].banned /\ cgca' = cgca => (k \in DOMAIN csrv' /\ csrv'[k].banned)
